@@ -198,10 +198,15 @@ CHECKS["C14"] = dict(
          "sums, a linear field gives b = M.[p, grad p], and post_loop solves "
          "M x = b (dims 1, 2). Equation level, plus one concrete unit for "
          "SPHEvaluator.update_particle_arrays (the neighbour search is "
-         "rebuilt on the new arrays).",
+         "rebuilt on the new arrays) and the real Interpolator.interpolate "
+         "on model arrays with 0-2 real and 0-2 ghost particles and "
+         "uninterpreted field values: z3 decides that every source "
+         "particle, ghosts included, carries the field when the evaluator "
+         "runs.",
     note="kernel abstracted (W(r,h) >= 0, gradient = G(r,h) xij); hooks "
          "driven in the documented order by the harness (C03's subject); "
-         "Interpolator's glue code, grids and periodic domains are outside; "
+         "the rest of Interpolator's glue code, grids and periodic domains "
+         "are outside; "
          "3-D linear solve outside; counter-examples replay through the "
          "real compiled Interpolator",
     technique="symbolic execution of the python hook methods on z3 Real "
